@@ -114,7 +114,7 @@ class StmtMixin(CallMixin):
         if s.exc is None:
             if not self.st.handling:
                 raise Unsupported('bare raise outside except')
-            raise RaiseSig(self.st.handling[-1], 'reraise')
+            raise RaiseSig(self.st.handling[-1][0], self.st.handling[-1][1])
         v = self.eval(s.exc)
         if v.ty.kind == 'py' and v.py[0] == 'cls':
             v = self.fresh_exc(v.py[1], base=v.py[1], exact=True)
@@ -471,7 +471,7 @@ class StmtMixin(CallMixin):
             if self.branch(cond, 'except'):
                 if h.name:
                     self.st.env[h.name] = e
-                self.st.handling.append(e)
+                self.st.handling.append((e, sig.origin))
                 try:
                     self.exec_block(h.body)
                 finally:
